@@ -10,3 +10,5 @@ import PyIkev2.Props.C09
 #print axioms PyIkev2.Props.C09.c09_concrete_child_request_while_ike_sa_in_transition
 #print axioms PyIkev2.Props.C09.c09_concrete_rekey_of_unknown_child
 #print axioms PyIkev2.Props.C09.c09_concrete_rekey_crossing_own_delete_or_rekey
+#print axioms PyIkev2.Props.C09.c09_concrete_delete_names_our_outbound_spi
+#print axioms PyIkev2.Props.C09.c09_concrete_delete_ignores_our_inbound_spis
